@@ -108,6 +108,9 @@ def gen_cases(rng, tier, scale):
             ('{{#each (id l2)}}{{#with @root.meta}}{{#each ../members}}{{this}},{{/each}}{{/with}}{{/each}}', 'm1,m2,'),
             ('{{#each [[1]]}}{{#with @root.meta}}{{a}}{{../this}}{{/with}}{{/each}}', '1[1]'),
             ('{{#each tags as |t|}}{{#each (id l2)}}{{#each t}}x{{else}}{{../name}}{{/each}}{{/each}}{{/each}}', None),
+            ('{{#each rows as |tags|}}[{{#each @root.tags}}{{this}}{{/each}}]{{/each}}', '[t1t2]'),
+            ('{{#each o as |meta tags|}}{{#each @root.tags}}{{@index}}{{/each}}{{@root.meta.a}};{{/each}}', '011;011;'),
+            ('{{#with po as |tags|}}{{#each @root.tags as |x|}}{{x}}{{tags.n}}{{/each}}{{/with}}', 't1Nt2N'),
             ('{{> pp po}}', 'NN')]):
         cases.append(rcase(f'up{k6}', tpl, D4, pre=['probes'], partials={'pp': '{{#each @root.tags}}{{../n}}{{/each}}'}, entry=0, kind='fixedout', exp=exp, tags=['up-to-value-bound']))
     return cases
